@@ -12,9 +12,10 @@ open DSymVerif.Cosets DSymVerif.SpecC11 DSymVerif.SpecC12
 
 def tabOfLists (ls : List (List Int)) : Tab := (ls.map List.toArray).toArray
 
-/-- search-node budget of the model run (the Rust iterator has none; the harness only sends
-    inputs whose search tree is far smaller) -/
-def nodeFuel : Nat := 50000000
+/-- search-node budget of the model run (the Rust iterator has none): `searchFuel n k`, proved
+    to exhaust the search tree for every input (`C12.coset_tables_fuel_adequate`), so the
+    `MODEL-FUEL` payload below is unreachable; the iterator model stops when its stack is empty -/
+def nodeFuel (n k : Nat) : Nat := searchFuel n k
 
 def viewAll : List (Outcome Table) → Outcome (List (List (List Int)))
   | [] => .ok []
@@ -36,7 +37,7 @@ def handler : Handler := fun op inp out =>
     match run (do let _name ← P.tok; let n ← P.nat; let rels ← P.intss; let k ← P.nat; pure (n, rels, k)) inp with
     | none => ("-", fail "driver-cannot-parse-input")
     | some (n, rels, k) =>
-      let m := match viewAll (cosetTables n (rels.map FW.new) k nodeFuel) with
+      let m := match viewAll (cosetTables n (rels.map FW.new) k (nodeFuel n k)) with
         | .ok vs => encTables vs
         | .err => "MODEL-FUEL"
         | .panic => "PANIC"
